@@ -10,15 +10,24 @@ PLSS_PARSE_KW = ["layout", "default_ns", "default_ew", "parse_qq", "clean_qq", "
                  "segment", "ocr_scrub", "sec_within", "qq_depth_min", "qq_depth_max", "qq_depth", "break_halves"]
 TRACT_PARSE_KW = ["clean_qq", "suppress_lot_divs", "qq_depth_min", "qq_depth_max", "qq_depth", "break_halves"]
 
-ENTRIES = ["init", "init", "init_cfgobj", "parse_kw", "parse_kw_nocommit", "config_then_parse"]
+ENTRIES = ["init", "init", "init_cfgobj", "parse_kw", "parse_kw_nocommit", "config_then_parse", "source_assigned_then_parse"]
 
 CASE_FIELDS = {
     "text": soup.ANY_TEXT,
     "cfg": configs.config_values(exclude=("wait_to_parse",)),
     "style": configs.STYLE,
     "entry": st.sampled_from(ENTRIES),
-    "source": st.sampled_from([None, "doc-17", 42, 0, ""]),
+    # ({"path": ...} stands for a pathlib.Path: the file the text was read from)
+    "source": st.sampled_from([None, "doc-17", 42, 0, "", {"path": "deeds/book 12/doc-17.txt"}]),
 }
+
+
+def source_of(case):
+    src = case.get("source")
+    if isinstance(src, dict) and "path" in src:
+        import pathlib
+        return pathlib.Path(src["path"])
+    return src
 CASE = st.fixed_dictionaries(CASE_FIELDS)
 
 
@@ -28,8 +37,14 @@ def make_plss(case, parse_qq=True):
     cfg = case["cfg"]
     ctext = configs.to_text(cfg, case["style"])
     entry = case["entry"]
-    src = case.get("source")
+    src = source_of(case)
     pq = True if parse_qq else None
+    if entry == "source_assigned_then_parse":
+        # created without a source tag (and not parsed yet); the tag is assigned afterwards, then the text is parsed
+        d = PLSSDesc(text, config=ctext, parse_qq=pq, wait_to_parse=True)
+        d.source = src
+        d.parse()
+        return d, d.tracts
     if entry == "init":
         d = PLSSDesc(text, config=ctext, parse_qq=pq, source=src)
         return d, d.tracts
